@@ -251,6 +251,13 @@ def exec_for(ex, s: ast.For, st: State) -> list[State]:
         ex.loop_ctx_stack.pop()
     done2 = z3.Store(done, elv, z3.Select(done, elv) + 1)
     for o in outs + fr.continues:
+        # ground instance of the array axiom for the element just processed: gives E-matching the term done2[elv] (witness
+        # of `exists processed element` goals)
+        o.assume(z3.Select(done2, elv) == z3.Select(done, elv) + 1)
+        # ... and for every element already known as processed: done2[v] is the trigger term of `exists processed element`
+        # goals over the new bag, done[v] the term the induction hypothesis provides
+        o.assume(z3.ForAll([dv], z3.Select(done2, dv) == z3.If(dv == elv, z3.Select(done, dv) + 1, z3.Select(done, dv)),
+                           patterns=[z3.Select(done, dv)]))
         for (nm, f) in auto_inv(o, i + 1) + list(spec.inv(lctx(o, i + 1, done2))):
             ex.oblige('%s.inv.preserve.%s' % (tag, nm), o, f, 'inv.preserve')
     # exit
